@@ -8,6 +8,7 @@ mod conc;
 mod cost;
 mod ops;
 mod payload;
+mod ready;
 mod registry;
 mod sources;
 mod stream;
@@ -104,6 +105,7 @@ fn main() {
         "uri" => uri::run(&args),
         "attrs" => attrs::run(&args),
         "ops" => ops::run(&args),
+        "ready" => ready::run(&args),
         "cost" => cost::run(&args),
         "cost-child" => cost::cost_child(&args),
         "bomb-child" => total::bomb_child(&args),
